@@ -696,9 +696,11 @@ impl Pool {
             }
         };
 
+        let mut shard_numbers = Vec::new();
+
         for (shard_idx, shard) in &self.shards {
             match shard_idx.parse::<usize>() {
-                Ok(_) => (),
+                Ok(shard_number) => shard_numbers.push(shard_number),
                 Err(_) => {
                     error!(
                         "Shard '{}' is not a valid number, shards must be numbered starting at 0",
@@ -708,6 +710,17 @@ impl Pool {
                 }
             };
             shard.validate()?;
+        }
+
+        // Shards are addressed by position: their numbers have to be exactly 0..n-1.
+        shard_numbers.sort();
+        if shard_numbers != (0..self.shards.len()).collect::<Vec<usize>>() {
+            error!(
+                "Shards must be numbered 0 to {} without gaps or duplicates, got {:?}",
+                self.shards.len().saturating_sub(1),
+                self.shards.keys().collect::<Vec<&String>>()
+            );
+            return Err(Error::BadConfig);
         }
 
         for (option, name) in [
